@@ -16,7 +16,10 @@ use crate::events::Ev;
 use crate::run::{RunResult, Trace, Violation};
 use crate::wire;
 
-const VERIF: &str = "/verif";
+/// Root of the verification tree (the check script exports VERIF_ROOT; default /verif).
+pub fn verif_root() -> String {
+    std::env::var("VERIF_ROOT").unwrap_or_else(|_| "/verif".to_string())
+}
 
 enum WMsg {
     Begin(usize, u64),
@@ -151,7 +154,7 @@ pub struct Known {
 
 pub fn load_known() -> Known {
     let mut k = Known { known: vec![] };
-    if let Ok(t) = std::fs::read_to_string(format!("{VERIF}/known_findings.json")) {
+    if let Ok(t) = std::fs::read_to_string(format!("{}/known_findings.json", verif_root())) {
         if let Ok(v) = serde_json::from_str::<serde_json::Value>(&t) {
             if let Some(a) = v.get("known").and_then(|x| x.as_array()) {
                 for e in a {
@@ -394,11 +397,11 @@ pub fn check(prop: &str, tier: &str, extra: &[String]) -> i32 {
     let workers: usize = std::env::var("VERIF_WORKERS").ok().and_then(|s| s.parse().ok()).unwrap_or(16);
     let b = budget(prop, tier);
     let first_seed = seed_base.wrapping_mul(10_000_019);
-    let build_dir = PathBuf::from(format!("{VERIF}/build/tmp"));
+    let build_dir = PathBuf::from(format!("{}/build/tmp", verif_root()));
     let _ = std::fs::create_dir_all(&build_dir);
-    let replays = PathBuf::from(format!("{VERIF}/replays"));
+    let replays = PathBuf::from(format!("{}/replays", verif_root()));
     let _ = std::fs::create_dir_all(&replays);
-    let evidence_dir = PathBuf::from(format!("{VERIF}/evidence"));
+    let evidence_dir = PathBuf::from(format!("{}/evidence", verif_root()));
     let _ = std::fs::create_dir_all(&evidence_dir);
     let _ = extra;
 
@@ -793,9 +796,9 @@ pub fn determinism(n: u64) -> i32 {
         println!("{prop}: {} seeds run twice (16 workers vs 3 workers), {} divergences", a.len(), prop_bad);
         bad += prop_bad;
     }
-    let _ = std::fs::create_dir_all(format!("{VERIF}/selftest"));
+    let _ = std::fs::create_dir_all(format!("{}/selftest", verif_root()));
     let _ = std::fs::write(
-        format!("{VERIF}/selftest/determinism.json"),
+        format!("{}/selftest/determinism.json", verif_root()),
         serde_json::to_string_pretty(&json!({"seeds_per_profile": n, "profiles": props.len(), "executions_compared": total, "divergences": bad, "compared": ["run fingerprint (event kinds, outcomes, abstract states)", "outcome hash", "digest of every serialized object produced (keys, encapsulations, MSK, MPK)"], "worker_counts": [16, 3], "features": wire::FEATURES})).unwrap(),
     );
     if bad == 0 {
